@@ -17,10 +17,12 @@ INVARIANT InverseLaw
 INVARIANT Classify
 INVARIANT ClassInvariant
 INVARIANT MulIntIsRepeatedAdd
+INVARIANT DivIntCanonical
 INVARIANT LimitImplIsDecl
 INVARIANT LimitOnPhases
 INVARIANT Commutative
 INVARIANT SubIsAddNeg
 INVARIANT AgreesWithRationals
+INVARIANT RingCanonical
 INVARIANT Associative
 CHECK_DEADLOCK FALSE
